@@ -147,7 +147,8 @@ def plan(ctx):
                        ([('tokcore', 'A_TOK_CORE', 4, i, 64) for i in range(64)] if ctx.thorough else [])),
         ('shard_random', [('rnd', ctx.pick(1200, 30000), i) for i in range(16)]),
         ('shard_mutations', [('mut', ctx.pick(3, 30), i) for i in range(16)]),
-        ('shard_faults', [('faults', ctx.pick(45, 1200), i) for i in range(16)]),
+        ('shard_faults', [('faults', ctx.pick(45, 1200), i) for i in range(16)] +
+                         [('longfaults', ctx.pick(5, 120), 16 + i) for i in range(4)]),
         ('shard_docs', [('docs', ctx.pick(120, 5000), i) for i in range(16)]),
     ]
 
@@ -168,11 +169,11 @@ def shard_mutations(ctx, shard):
 
 
 def shard_faults(ctx, shard):
-    _, n, idx = shard
+    which, n, idx = shard
     H.import_repo()
     res = H.Result()
     res.thorough = ctx.thorough
-    D.doc_shard(ctx, 'nomath', n, idx, check_faults, res,
+    D.doc_shard(ctx, 'nomath' if which == 'faults' else 'flatnomath', n, idx, check_faults, res,
                 nontrivial=lambda nodes, kinds, depth, labels: any(l.startswith('fault:') for l in labels))
     return res
 
